@@ -441,6 +441,8 @@ class FcpV2Transformer(Transformer):
             fcp_ast = fcp_parser.parse(source)
         except UnexpectedInput as e:
             return _lark_error(self.error_logger, filename, source, e)
+        except RecursionError:
+            return error(f"{filename.name} is nested too deeply")
 
         try:
             fcp = FcpV2Transformer(
@@ -451,6 +453,8 @@ class FcpV2Transformer(Transformer):
             ).transform(fcp_ast)
         except VisitError as e:
             return _visit_error(filename, e)
+        except RecursionError:
+            return error(f"{filename.name} is nested too deeply")
 
         self.fcp.merge(
             fcp.map_err(
@@ -587,6 +591,8 @@ def _get_fcp(
         fcp_ast = fcp_parser.parse(source)
     except UnexpectedInput as e:
         return _lark_error(logger, filename, source, e)
+    except RecursionError:
+        return error(f"{filename.name} is nested too deeply")
 
     parser_context = ParserContext()
 
@@ -596,6 +602,8 @@ def _get_fcp(
         ).transform(fcp_ast)
     except VisitError as e:
         return _visit_error(filename, e)
+    except RecursionError:
+        return error(f"{filename.name} is nested too deeply")
 
     return Ok(fcp.attempt())
 
